@@ -2,21 +2,21 @@ SPECIFICATION Spec
 CONSTANTS
   NTypes = 3
   MaxRuns = 2
-  Shapes <- ShapesLimiter
-  Limits = {1, 2, 3}
-  DefIds = {1}
+  Shapes <- ShapesPlain
+  Limits = {0}
+  DefIds = {1, 2}
   OmitVals = {FALSE}
   Modes = {"fresh", "lctx", "gen"}
-  ResetLimiter = FALSE
+  ResetLimiter = TRUE
   IdentityDepKey = TRUE
   VolatileUniq = TRUE
   FreshModule = TRUE
-  Words = {1}
+  Words = {2}
   FullStropKey = TRUE
   Docs = {0}
   PureFilters = TRUE
-  Confs = {0}
-  PureDerivedNames = TRUE
+  Confs = {1}
+  PureDerivedNames = FALSE
 VIEW View
 INVARIANT EmitBad
 CHECK_DEADLOCK FALSE
